@@ -70,7 +70,8 @@ Definition init_state : state := mkst false [].
 Inductive button := BLeft | BMiddle | BRight | BOther.      (* Matplotlib buttons 1, 2, 3, anything else *)
 Inductive action := KeyDown | KeyUp | KeyOther | Click (b:button) (x y:Q) | ClickOut (b:button).
   (* KeyDown / KeyUp = press / release of "shift"; KeyOther = press or release of any other key;
-     ClickOut = a click outside the axes (Matplotlib reports xdata = ydata = None): it designates nothing *)
+     ClickOut = a click outside the axes (Matplotlib reports xdata = ydata = None): it designates no pole and no
+     frequency, so it can neither pick nor deselect-nearest; a deselect-one there may still remove one pair *)
 
 (* ---------------------------------------------------------------- multisets of entries ------------------------ *)
 Fixpoint remove1 (e:entry) (l:list entry) : option (list entry) :=
@@ -119,7 +120,13 @@ Definition allowed (pick:Q->Q->pres) (st:state) (a:action) (st':state) : bool :=
          | BOther => msame (sel st) (sel st')
          end
        else msame (sel st) (sel st'))
-  | ClickOut _ => Bool.eqb (shift st') (shift st) && msame (sel st) (sel st')
+  | ClickOut b =>
+      Bool.eqb (shift st') (shift st) &&
+      (msame (sel st) (sel st') ||
+       (shift st && match b with
+                    | BRight => existsb (fun e => msame (sel st) (e :: sel st')) (sel st)
+                    | _ => false
+                    end))
   end.
 
 (* ---------------------------------------------------------------- traces of allowed steps ---------------------- *)
@@ -151,7 +158,7 @@ Fixpoint ndesel (sh:bool) (l:list action) : nat :=
   | [] => 0
   | KeyDown :: r => ndesel true r
   | KeyUp :: r => ndesel false r
-  | Click BRight _ _ :: r | Click BMiddle _ _ :: r => if sh then S (ndesel sh r) else ndesel sh r
+  | Click BRight _ _ :: r | Click BMiddle _ _ :: r | ClickOut BRight :: r => if sh then S (ndesel sh r) else ndesel sh r
   | _ :: r => ndesel sh r
   end.
 (* the pair a click designates (none if the handler raises) *)
@@ -165,7 +172,11 @@ Definition allowedP (pick:Q->Q->pres) (st:state) (a:action) (st':state) : Prop :
   match a with
   | KeyDown => shift st' = true /\ Permutation (sel st) (sel st')
   | KeyUp => shift st' = false /\ Permutation (sel st) (sel st')
-  | KeyOther | ClickOut _ => shift st' = shift st /\ Permutation (sel st) (sel st')
+  | KeyOther => shift st' = shift st /\ Permutation (sel st) (sel st')
+  | ClickOut b =>
+      shift st' = shift st /\
+      (Permutation (sel st) (sel st') \/
+       (shift st = true /\ b = BRight /\ exists e, In e (sel st) /\ Permutation (sel st) (e :: sel st')))
   | Click b x y =>
       shift st' = shift st /\
       if shift st then
@@ -235,7 +246,13 @@ Definition impl_step (pick:Q->Q->pres) (st:state) (a:action) : state :=
         | BOther => st
         end
       else st
-  | ClickOut _ => st
+  | ClickOut b =>                                                         (* coordinates are None *)
+      if shift st then
+        match b with
+        | BRight => mkst true (removelast (sel st))                     (* pop() does not look at the coordinates *)
+        | _ => st                                                       (* TypeError before the lists are touched, or no branch *)
+        end
+      else st
   end.
 Definition impl_raises (pick:Q->Q->pres) (st:state) (a:action) : bool :=
   match a with
